@@ -1,6 +1,8 @@
 import RR.Proof.HdlcTable
 import RR.Proof.HdlcRoundtrip
 import RR.Proof.HdlcResync
+import RR.Proof.HdlcCrcDetect
+import RR.Proof.HdlcFix
 
 /-!
 # C13 — HDLC deframer: every valid frame is recovered, nothing invalid is emitted
@@ -119,6 +121,59 @@ theorem c13_after_noise (cfg : Cfg) (hs : cfg.stripChecksum = true) (noise : Lis
     run cfg init ((noise ++ flag) ++ ps.flatMap fun q => body q.1 ++ (List.replicate q.2 flag).flatten) =
       (.synced 0 [], (run cfg init (noise ++ flag)).2 ++ ps.map (·.1)) := by
   rw [run_append, c13_resync cfg noise hn, run_bodies cfg hs ps hps]
+
+/-- **Every single-bit corruption of the data is rejected** (checksum on, bit fixing off): the
+CRC of the corrupted bytes differs from the transmitted checksum — the bit-serial CRC step is a
+linear bijection on 16-bit states, so a one-bit difference never cancels — hence `find_right_crc`
+reports a mismatch and `update_state` emits nothing (`c13_crc_gate`). -/
+theorem c13_single_bit_detected (pre rest : List Nat) (b j : Nat) (hpre : ∀ x ∈ pre, x < 256)
+    (hrest : ∀ x ∈ rest, x < 256) (hb : b < 256) (hj : j < 8) :
+    let sent := pre ++ b :: rest
+    let received := pre ++ (b ^^^ 2 ^ j) :: rest
+    (findRightCrc received (crcBitwise sent) false).2 ≠ crcBitwise sent := by
+  intro sent received
+  have hne := crc_single_bit pre rest b j hpre hrest hb hj
+  have hb' : b ^^^ 2 ^ j < 256 := by
+    have : 2 ^ j < 2 ^ 8 := Nat.pow_lt_pow_right (by omega) hj
+    exact Nat.xor_lt_two_pow (n := 8) hb this
+  have hrec : ∀ x ∈ received, x < 256 := by
+    intro x hx
+    rcases List.mem_append.mp hx with h | h
+    · exact hpre x h
+    · rcases List.mem_cons.mp h with rfl | h
+      · exact hb'
+      · exact hrest x h
+  have hc : calcCrc received = crcBitwise received := calcCrc_eq_bitwise received hrec
+  unfold findRightCrc
+  rw [hc]
+  have : (crcBitwise sent == crcBitwise received) = false := by
+    simp only [beq_eq_false_iff_ne, ne_eq]
+    exact fun h => hne h.symm
+  simp [this]
+  exact hne
+
+/-- **Every double-bit corruption of the data is rejected** (frames below 4095 bytes): two flipped
+bits in different bytes (`c13_two_bits_detected`) or in the same byte leave a checksum mismatch,
+because the CRC step walks an orbit of length exactly 32767 through the single-bit states (`x` has
+order 32767 modulo the generator; established by kernel evaluation of the whole orbit). -/
+theorem c13_two_bits_detected (pre mid rest : List Nat) (b1 j1 b2 j2 : Nat)
+    (hpre : ∀ x ∈ pre, x < 256) (hmid : ∀ x ∈ mid, x < 256) (hrest : ∀ x ∈ rest, x < 256)
+    (hb1 : b1 < 256) (hb2 : b2 < 256) (hj1 : j1 < 8) (hj2 : j2 < 8) (hlen : mid.length + 1 < 4095) :
+    crcBitwise (pre ++ (b1 ^^^ 2 ^ j1) :: (mid ++ (b2 ^^^ 2 ^ j2) :: rest)) ≠
+      crcBitwise (pre ++ b1 :: (mid ++ b2 :: rest)) ∧
+    (j1 ≠ j2 → crcBitwise (pre ++ (b1 ^^^ 2 ^ j1 ^^^ 2 ^ j2) :: rest) ≠ crcBitwise (pre ++ b1 :: rest)) :=
+  ⟨crc_two_bits pre mid rest b1 j1 b2 j2 hpre hmid hrest hb1 hb2 hj1 hj2 (by omega),
+   fun h => crc_two_bits_same_byte pre rest b1 j1 j2 hpre hrest hb1 hj1 hj2 h⟩
+
+/-- **Single-bit repair returns the original.** With bit fixing enabled and exactly one data bit
+flipped, `find_right_crc` finds that bit and no other (any other single flip would be an undetected
+double error), hands back the transmitted bytes, and the checksum it reports verifies. -/
+theorem c13_fix_repairs (pre rest : List Nat) (b j : Nat)
+    (hpre : ∀ x ∈ pre, x < 256) (hrest : ∀ x ∈ rest, x < 256) (hb : b < 256) (hj : j < 8)
+    (hlen : (pre ++ b :: rest).length < 4095) :
+    findRightCrc (pre ++ (b ^^^ 2 ^ j) :: rest) (crcBitwise (pre ++ b :: rest)) true =
+      (some (pre ++ b :: rest), crcBitwise (pre ++ b :: rest)) :=
+  findRightCrc_repairs pre rest b j hpre hrest hb hj hlen
 
 /-- Destuffing inverts stuffing: the stuffed form of any bit string is collected as that string. -/
 theorem c13_destuff (cfg : Cfg) (d : List Nat) (hd : ∀ b ∈ d, b ≤ 1) (hl : d.length ≤ cfg.maxSize * 8 + 7) :
